@@ -3,16 +3,39 @@ CHECK = {
     "harness": "h-c05",
     "translators": ["c05_params"],
     "level": "proof",
-    "rule": "one line per (parameter set | bounds-function argument tuple | gate row | field/BigUint program); "
-            "distinctness by hash of the request line",
-    "explanation": "Lean theorems over an executable model of the foreign-field emulation (auxiliary-bounds "
-                   "function, CRT lift, mul/norm gate identities, limb bookkeeping) and of the BigUint limb "
-                   "arithmetic; the model is tied to the code by generated parameter sets and by running both on the "
-                   "same requests; the property's oracle (honest witness accepted with the reference result, tampered "
-                   "witness rejected) is checked directly through the real MockProver",
-    "trusted_base": ["range-check and native-gadget instructions used by the foreign chip (property C04) are assumed at their interface"],
-    "level_text": "Kernel-checked Lean theorems about an executable model of the foreign-field and BigUint gadgets, with the model checked against the real code on every run",
-    "level_note": "Trusted: Lean kernel, the correspondence harness and driver; native gadget (C04) assumed at its interface",
-    "assumptions": ["native range checks (assert_lower_than_fixed / assign_lower_than_fixed) enforce their bound (C04)"],
-    "timeout": {"quick": 900, "thorough": 3000, "search": 600},
+    "rule": "one line per compiled-in parameter set (constants, base powers, check_params, well-formed bounds, "
+            "mul/norm bounds), per argument tuple of get_identity_auxiliary_bounds (random, near-gate, u_max "
+            "thresholds), per random evaluation of the real mul/norm gate polynomials, per assigned mul/norm row, "
+            "per field-chip program (5 emulated fields over the BLS12-381 scalar field) and per BigUint program "
+            "(widths 1..2048); distinctness by hash of the request line",
+    "explanation": "Lean theorems over an executable model of the foreign-field emulation (auxiliary-bounds function, "
+                   "CRT lift, mul/norm gate identities and witness generation, limb representation and bound "
+                   "bookkeeping, every FieldChip operation on limb vectors) and of the BigUint limb arithmetic. The "
+                   "model is tied to the code by parameter sets regenerated from params.rs (side conditions re-proved "
+                   "by the kernel), by evaluating the REAL gate polynomials at random points against the model's "
+                   "identities, and by running both on the same programs (limb values, tracked bounds, normalisation "
+                   "decisions, rows of the gates, number of range checks, verdict). The property's oracle is checked "
+                   "directly through the real MockProver: honest witness accepted with the num-bigint result exposed "
+                   "as public input, false assertions / wrong or non-canonical public inputs rejected, every tampered "
+                   "cell of every mul/norm region rejected",
+    "technique": "proof + translation of parameter sets + structural/value correspondence + tamper sweep (H2)",
+    "trusted_base": [
+        "native gadget instructions used by the foreign chip and the BigUint gadget (range checks, linear "
+        "combinations, is_equal, bit decompositions: property C04) are assumed at their interface",
+        "moduli of secp256k1 and of the Curve25519 scalar field come from external crates; the generated constants "
+        "are compared with what the running code reports on every run",
+    ],
+    "level_text": "Kernel-checked Lean theorems about an executable model of the foreign-field and BigUint gadgets "
+                  "(all parameter sets on which configure succeeds, all limb/auxiliary assignments), with the model "
+                  "checked against the real code on every run",
+    "level_note": "Trusted: Lean kernel, the correspondence harness and driver; the native gadget (C04) at its "
+                  "interface. Soundness of a whole operation = gate soundness theorem (all assignments) + range "
+                  "checks present (counted per region by the correspondence, bounds not read back) + copy constraints "
+                  "(tamper sweep); multi-cell forgeries that re-derive consistent range-check witnesses are covered "
+                  "by the theorems only",
+    "assumptions": [
+        "assert_lower_than_fixed / assign_lower_than_fixed enforce their bound (C04)",
+        "each emulated modulus is prime where the model inverts (division, inversion)",
+    ],
+    "timeout": {"quick": 1500, "thorough": 3400, "search": 900},
 }
